@@ -21,6 +21,9 @@ def split_top(s, sep=','):
                 instr = False
         elif c == '"':
             instr = True; cur.append(c)
+        elif c == "'" and i + 2 < n and ((s[i+1] != '\\' and s[i+2] == "'") or (s[i+1] == '\\' and i + 3 < n and s[i+3] == "'")):
+            k = 3 if s[i+1] != '\\' else 4          # char literal such as ',' '(' '\'' (a lifetime is never closed by a quote two characters on)
+            cur.append(s[i:i+k]); i += k - 1
         elif c in '([{<':
             depth += 1; cur.append(c)
         elif c in ')]}':
